@@ -69,6 +69,7 @@ class Cfg:
     nest: bool = True
     bitmask: bool = True
     meas_arity: tuple = (1, 1, 1, 2, 2, 3)
+    leg_p: int = 2  # out of 10: measure one leg right behind a two-qubit gate
 
 
 def _default_pred(cfg):
@@ -167,9 +168,15 @@ def _body(draw, cfg: Cfg, dims, depth, max_ops):
         if cfg.tags and kind != "sub":
             o["tag"] = draw(st.sampled_from([0, 0, 0, 0, 1, 1, 2]))
         ops.append(o)
-        if kind == "g" and cfg.meas > 0 and not cfg.terminal_only and len(o["w"]) == 2 and draw(st.integers(0, 9)) < 2:
+        if kind == "g" and cfg.meas > 0 and not cfg.terminal_only and len(o["w"]) == 2 and draw(st.integers(0, 9)) < cfg.leg_p:
             # measure one leg of a two-qubit gate right behind it
-            ops.append({"k": "m", "w": [o["w"][draw(st.integers(0, 1))]], "key": draw(st.integers(0, 2)), "ins": 0, "tag": 0})
+            leg = draw(st.integers(0, 1))
+            ops.append({"k": "m", "w": [o["w"][leg]], "key": draw(st.integers(0, 2)), "ins": 0, "tag": 0})
+            if draw(st.booleans()):
+                # ... then rotate and measure the other leg: phase kick-back of the two-qubit gate becomes observable
+                g1 = draw(G.gate_recipes(lambda f: f.unitary and not f.qudit and f.arity == 1 and "diag" not in f.tags, max_arity=1))
+                ops.append({"k": "g", "g": g1, "w": [o["w"][1 - leg]], "ins": 0, "tag": 0})
+                ops.append({"k": "m", "w": [o["w"][1 - leg]], "key": draw(st.integers(0, 2)), "ins": 0, "tag": 0})
         if kind == "m" and cfg.cc > 0 and draw(st.integers(0, 9)) < 4:
             # feed-forward right behind the measurement, preferably on wires the measurement does not touch
             free = [w for w in range(len(dims)) if w not in o["w"] and dims[w] == 2]
